@@ -8,8 +8,8 @@
    prints nothing on empty input.  The copy loop is therefore claimed for non-empty inputs; COPY 0 covers the empty text. *)
 From Coq Require Import List NArith Bool.
 Import ListNotations.
-From HV Require Import Model.Parse Model.Utf8 Model.Cli Spec.Lang Proofs.UniSpec Proofs.ExtraSpec.
-From HV Require Proofs.UniProofs Proofs.ExtraProofs.
+From HV Require Import Model.Parse Model.Exec Model.Opt Model.Utf8 Model.Cli Model.Compile Spec.Lang Proofs.UniSpec Proofs.ExtraSpec Proofs.Uni2Spec.
+From HV Require Proofs.UniProofs Proofs.ExtraProofs Proofs.Uni2Proofs Proofs.Uni2All.
 Open Scope N_scope.
 
 (* every valid text survives encoding and decoding: every scalar value U+0000..U+10FFFF, any length *)
@@ -53,6 +53,35 @@ Theorem C14_cat_through_cli : forall t, t <> [] -> scalars t ->
   exists fuel, run_cli 0 (FBytes true (encode CAT_SRC)) (encode t) fuel = CExit 0 (encode t) [].
 Proof. exact ExtraProofs.cat_cli. Qed.
 Print Assumptions C14_cat_through_cli.
+
+(* "identically when interpreted at each optimisation level and when compiled": the copy loop and the fixed-count copy
+   (COPY_SRC n = 흑 followed by n times " 항.") through `hyeong run -O<level>` for every level, bytes in = bytes out ... *)
+Theorem C14_cat_every_level : forall level t, level <= 2 -> t <> [] -> scalars t ->
+  exists fuel, run_cli level (FBytes true (encode CAT_SRC)) (encode t) fuel = CExit 0 (encode t) [].
+Proof. exact Uni2Proofs.cat_cli_levels. Qed.
+Print Assumptions C14_cat_every_level.
+Theorem C14_copy_every_level : forall level n t, level <= 2 -> scalars t ->
+  exists fuel, run_cli level (FBytes true (encode (COPY_SRC n))) (encode t) fuel =
+               CExit 0 (encode (firstn n t ++ nan_texts (n - length t))) [].
+Proof. exact Uni2Proofs.copy_cli_levels. Qed.
+Print Assumptions C14_copy_every_level.
+(* ... and compiled at every level: the compiler returns a program for them, and the emitted program (Model/Compile.v) run on
+   the lines of the text ends normally having written exactly the text (resp. its prefix, then the NaN text) *)
+Theorem C14_copy_programs_compile : forall level n, level <= 2 ->
+  (exists p, compile_prog all_fixed true (parse CAT_SRC) level = Some p) /\
+  (exists p, compile_prog all_fixed true (parse (COPY_SRC n)) level = Some p).
+Proof. exact Uni2Proofs.copy_compiles. Qed.
+Print Assumptions C14_copy_programs_compile.
+Theorem C14_cat_compiled : forall level t p, level <= 2 -> t <> [] -> scalars t ->
+  compile_prog all_fixed true (parse CAT_SRC) level = Some p ->
+  exists fuel s, ir_run fuel p (lines_of t) = IDone s /\ rev (outb s) = t /\ rev (errb s) = [].
+Proof. exact Uni2All.cat_compiled_t. Qed.
+Print Assumptions C14_cat_compiled.
+Theorem C14_copy_compiled : forall level n t p, level <= 2 -> scalars t ->
+  compile_prog all_fixed true (parse (COPY_SRC n)) level = Some p ->
+  exists fuel s, ir_run fuel p (lines_of t) = IDone s /\ rev (outb s) = firstn n t ++ nan_texts (n - length t) /\ rev (errb s) = [].
+Proof. exact Uni2All.copy_compiled_t. Qed.
+Print Assumptions C14_copy_compiled.
 
 Example C14_examples :
   decode (encode [0; 127; 128; 2047; 2048; 55295; 57344; 65535; 65536; 1114111]) = Some [0; 127; 128; 2047; 2048; 55295; 57344; 65535; 65536; 1114111] /\
